@@ -196,6 +196,12 @@ class Run:
                 print(f"CHECKER-CRASH property={self.pid}: {len(missing)} locked obligations were not generated: {missing[:6]}")
                 return EXIT_CRASH
         self._link_inputs()
+        # auxiliary (construction-conformance) obligations that are refuted withdraw the proof layer for that function: the
+        # decision is the bounded stand-in's; if it found nothing the result is UNDECIDED (never a pass, never a violation).
+        for nm in self.extra.get("aux_refuted", []):
+            if not self.violations:
+                self.undecided.append((nm, "construction-changed: code no longer conforms to the verified construction; "
+                                           "the bounded stand-in found no counterexample on its domain"))
         wall = time.perf_counter() - self.t0
         n_ob = len(self.obligations)
         n_dis = sum(1 for o in self.obligations if o["verdict"] == "proved")
